@@ -25,7 +25,7 @@ LEVEL_TEXT = ("The C09 scenario generator (random coastlines, jets with Courant 
               "checked by a python-side index monitor. Evidence reports the closest approach to each array edge that was actually observed.")
 LEVEL_NOTE = "numba's checker does not flag negative indices (they wrap); the shadow monitor covers those. A dying interpreter during a run counts as a violation."
 RULE = ("case = C09-style world/run with boundary-hugging releases. Non-trivial: some kernel call came within one cell of an array edge; distinct by case parameters.")
-MANDATORY = ["second_run_on_same_files_larger_grid", "family_c09", "family_c14", "family_c10", "family_c08", "family_lonlat", "trilinear_calls", "z2s_kernel_calls", "sample3D_nearest_calls", "within_one_cell_of_edge", "scheme_RK2", "scheme_RK4", "subgrid", "boundscheck_active",
+MANDATORY = ["second_run_on_same_files_larger_grid", "family_c09", "family_c14", "family_c10", "family_c08", "family_lonlat", "family_vinfo", "particles_exactly_on_level_depths", "trilinear_calls", "z2s_kernel_calls", "sample3D_nearest_calls", "within_one_cell_of_edge", "scheme_RK2", "scheme_RK4", "subgrid", "boundscheck_active",
              "surface_or_bottom_particles", "diffusion_on"]
 ASSUMPTIONS = ["N >= 2 (with a single level no level pair exists)"]
 BOUNDSCHECK = True
@@ -57,6 +57,11 @@ def gen_cases(tier: str, seed: int) -> list[dict[str, Any]]:
         cases.append(dict(family=["c14", "c10", "c08"][i % 3], seed=seed, idx=i))
     for i in range(12 if tier == "quick" else 1500):
         cases.append(dict(family="lonlat", seed=seed, idx=i))
+    # vertical grid given through the Vinfo option, level counts over the whole documented range (incl. those where 1/N is awkward in floating point)
+    for i in range(8 if tier == "quick" else 120):
+        c = C09.gen_case(seed + 2000, i)
+        c.update(family="vinfo", scheme=["RK4", "EF", "RK2"][i % 3], diffusion=0.0, N=[49, 30, 57, 60, 53, 7, 58, 41][i % 8] if tier == "quick" else 1 + (i + seed) % 60)
+        cases.append(c)
     return cases
 
 
@@ -67,9 +72,19 @@ def run_case(case: dict[str, Any], wd: Path) -> dict[str, Any]:
 
     fam = case.get("family", "c09")
     extra_scns: list[dict[str, Any]] = []
-    if fam == "c09":
+    tweak = None
+    if fam in ("c09", "vinfo"):
         scn, M, box, near_rim = C09.build(case)
         scn["world"]["N"] = case.get("N", 3)
+        if fam == "vinfo":
+            vert = dict(Vtransform=2, Vstretching=[1, 2, 4][case["idx"] % 3], theta_s=4.0, theta_b=0.6, hc=12.0)
+            scn["world"]["vert"] = vert
+            vinfo = dict(N=case["N"], hc=vert["hc"], theta_s=vert["theta_s"], theta_b=vert["theta_b"], Vstretching=vert["Vstretching"], Vtransform=2)
+
+            def tweak(conf):
+                conf["grid"]["Vinfo"] = dict(vinfo)
+
+            case = dict(case, subgrid=case.get("subgrid"), flow=case["flow"])
         # particles at the surface and at the bottom
         for k, row in enumerate(scn["run"]["release"]["rows"]):
             if k % 3 == 0:
@@ -187,6 +202,21 @@ def run_case(case: dict[str, Any], wd: Path) -> dict[str, Any]:
         scn["run"]["extra_forcing"] = ["temp"]
         scn["world"]["scalars"] = dict(temp=dict(kind="coded"))
         scn["run"]["state"] = dict(instance_variables=dict(temp="float"), default_values=dict(temp=0.0))
+    pre_world = None
+    if fam in ("c09", "vinfo"):
+        # particles exactly on level depths (as the model itself computes them, bit for bit): uppermost, lowest and a middle rho-level
+        from vmon import world as W  # noqa: PLC0415
+
+        pre_world = W.write_world(wd / "world", scn["world"])
+        try:
+            g0 = R.Grid(filename=str(pre_world["gridfile"]), subgrid=case["subgrid"], **(dict(Vinfo=dict(vinfo)) if fam == "vinfo" else {}))
+            for k, row in enumerate(scn["run"]["release"]["rows"]):
+                if k % 5 == 2 and row[1] > 0:
+                    jj, ii = int(round(row[3])) - g0.j0, int(round(row[2])) - g0.i0
+                    lev = [-1, 0, g0.z_r.shape[0] // 2][(k // 5) % 3]
+                    row[4] = float(-g0.z_r[lev, jj, ii])
+        except Exception:  # noqa: BLE001
+            pass  # a Grid that cannot be built shows up in the run itself
     sit["family_" + fam] = 1
     with Hooks() as hk:
         hk.wrap(R, "trilinear", shadow_tri, None)
@@ -204,6 +234,9 @@ def run_case(case: dict[str, Any], wd: Path) -> dict[str, Any]:
             _r0, _c0, world0 = run_scenario(pre, wd, conf_name="pre.yaml")
             res, conf, world = run_scenario(dict(world=None, run=scn["run"]), wd, world=world0)
             sit["second_run_on_same_files_larger_grid"] = 1
+        elif pre_world is not None:
+            res, conf, world = run_scenario(dict(world=None, run=scn["run"]), wd, world=pre_world, tweak=tweak)
+            sit["particles_exactly_on_level_depths"] = 1
         else:
             res, conf, world = run_scenario(scn, wd)
     sit["boundscheck_active"] = int(os.environ.get("NUMBA_BOUNDSCHECK") == "1")
